@@ -176,9 +176,14 @@ def run_unit(unit, variant, multiple_errors=20, extra_args=()):
         gl = prim[0]["line_start"] if prim else 0
         tag = None
         for s in spans:
-            t = _tag_on(text_lines, s["line_start"])
-            if t:
-                tag = t
+            if s.get("label") and "function body" in (s.get("label") or ""):
+                continue
+            for ln_ in range(s["line_start"], min(s["line_end"], s["line_start"] + 40) + 1):
+                t = _tag_on(text_lines, ln_)
+                if t:
+                    tag = t
+                    break
+            if tag:
                 break
         # the failing *site* is the primary span; for postconditions the clause is primary, for preconditions the call
         fn = _fn_at(b, text_lines, max(s["line_start"] for s in spans) if spans else gl)
